@@ -29,7 +29,14 @@ fn gen_program(rng: &mut Rng, ctx: &gen::Ctx, logging: bool) -> (String, Program
         let src = {
             let mut g = Gen::new(rng, k, ctx);
             let d = 1 + g.rng.below(4);
-            match g.rng.below(8) {
+            match g.rng.below(10) {
+                8 => ["vl1.map(vl1, vl1 * 2)", "vl1.filter(vl1, vl1 > 1)", "vl2.all(vl2, vl2 != '')", "vl1.map(x, x * 2)", "[1, 2].map(x, x + 1)", "vl3.map(vl3, vl3.map(vl3, vl3))",
+                      "vm1.map(vm1, vm1)", "vl1.exists(vl1, vl1 == 1)", "[vl1].map(vl1, vl1)", "vl1.map(vi1, vi1)", "has(vm1.a) ? vm1.a : 0", "vl2.map(vs1, vs1 + vs1)"][g.rng.below(12)].to_string(),
+                9 => {
+                    g.knobs.clash_names = true;
+                    let t = match g.rng.below(3) { 0 => T::Bool, 1 => T::List(Box::new(T::Int)), _ => T::List(Box::new(T::Str)) };
+                    g.expr(&t, d).render()
+                }
                 0 => "vl1 + vl1".to_string(),
                 1 => "(vl1 + [1]) + vl1".to_string(),
                 2 => "vs1 + vs2 + vs1".to_string(),
@@ -47,6 +54,29 @@ fn gen_program(rng: &mut Rng, ctx: &gen::Ctx, logging: bool) -> (String, Program
             return (src, p, ast);
         }
     }
+}
+
+/// Fresh values of their own types for a few context variables (what an inner scope shadows them with).
+fn shadow_vars(rng: &mut Rng, gctx: &gen::Ctx) -> Vec<(String, Value)> {
+    let mut out = vec![];
+    for (n, t, _) in gctx.vars.iter() {
+        if rng.chance(1, 3) {
+            out.push((n.clone(), gen::gen_value(rng, t, 4)));
+        }
+    }
+    out
+}
+
+fn scope_with<'a>(root: &'a Context<'a>, shadow: &[(String, Value)]) -> Context<'a> {
+    let mut inner = root.new_inner_scope();
+    for (n, v) in shadow {
+        inner.add_variable_from_value(n.clone(), v.clone());
+    }
+    inner
+}
+
+fn effective(vars: &[(String, Value)], shadow: &[(String, Value)]) -> Vec<(String, Value)> {
+    vars.iter().map(|(n, v)| match shadow.iter().find(|(m, _)| m == n) { Some((_, w)) => (n.clone(), w.clone()), None => (n.clone(), v.clone()) }).collect()
 }
 
 /// Histories: up to 50 executions against ONE context; after each, the context and every value
@@ -78,14 +108,29 @@ pub fn histories(seed: u64, count: usize, out: &mut dyn Write) -> usize {
                 gen_program(&mut rng, &gctx, true)
             };
             log.lock().unwrap().clear();
-            let r = catch_unwind(AssertUnwindSafe(|| prog.execute(&ctx)));
+            // every fourth execution runs in an inner scope of the context that shadows some variables
+            let shadow: Vec<(String, Value)> = if step % 4 == 3 { shadow_vars(&mut rng, &gctx) } else { vec![] };
+            let mut shadow_held: Vec<J> = vec![];
+            let r = if shadow.is_empty() {
+                catch_unwind(AssertUnwindSafe(|| prog.execute(&ctx)))
+            } else {
+                let inner = scope_with(&ctx, &shadow);
+                let r = catch_unwind(AssertUnwindSafe(|| prog.execute(&inner)));
+                // the inner scope's own bindings are part of "the context it ran against"
+                for (n, v) in &shadow {
+                    shadow_held.push(json!([enc::value(v), match inner.get_variable(n.as_str()) { Ok(w) => enc::value(&w), Err(_) => json!({"t": "null"}) }]));
+                }
+                r
+            };
+            let eff_json = run::vars_json(&effective(&vars, &shadow));
             let l = log.lock().unwrap().clone();
             let result_val = match &r { Ok(Ok(v)) => Some(v.clone()), _ => None };
             let o = run::outcome(r);
             let after: Vec<J> = vars.iter().map(|(n, _)| json!([n, match ctx.get_variable(n.as_str()) { Ok(v) => enc::value(&v), Err(_) => json!({"t": "null"}) }])).collect();
-            let held_json: Vec<J> = held.iter().map(|(first, v)| json!([first, enc::value(v)])).collect();
+            let mut held_json: Vec<J> = held.iter().map(|(first, v)| json!([first, enc::value(v)])).collect();
+            held_json.extend(shadow_held);
             id += 1;
-            writeln!(out, "{}", json!({"ev": "case", "id": id, "src": src, "ast": ast, "vars": vars_json, "log": l, "out": o, "vars_after": after, "held": held_json})).unwrap();
+            writeln!(out, "{}", json!({"ev": "case", "id": id, "src": src, "ast": ast, "vars": eff_json, "vars_before": vars_json, "log": l, "out": o, "vars_after": after, "held": held_json})).unwrap();
             if let Some(v) = result_val {
                 if held.len() < 40 {
                     held.push((enc::value(&v), v));
@@ -132,13 +177,17 @@ pub fn threads(seed: u64, rounds: usize, nthreads: usize, per_thread: usize, out
             asts.push(a);
             progs.push(p);
         }
-        // alone, first
-        let alone: Vec<J> = progs.iter().map(|p| run::outcome(catch_unwind(AssertUnwindSafe(|| p.execute(&root.new_inner_scope()))))).collect();
+        // the inner scopes the threads execute in: variant 0 binds nothing, the others shadow some root variables
+        let variants: Vec<Vec<(String, Value)>> = vec![vec![], shadow_vars(&mut rng, &gctx), shadow_vars(&mut rng, &gctx)];
+        let variants_ref = &variants;
+        let scope_of = move |root, k: usize| scope_with(root, &variants_ref[k]);
+        // alone, first: every program in every variant
+        let alone: Vec<Vec<J>> = (0..variants.len()).map(|k| progs.iter().map(|p| run::outcome(catch_unwind(AssertUnwindSafe(|| p.execute(&scope_of(&root, k)))))).collect()).collect();
         let before: Vec<J> = vars.iter().map(|(n, _)| enc::value(&root.get_variable(n.as_str()).unwrap())).collect();
         let seeds: Vec<u64> = (0..nthreads).map(|_| rng.next_u64()).collect();
         let progs_ref = &progs;
         let root_ref = &root;
-        let results: Vec<Vec<(usize, J)>> = std::thread::scope(|sc| {
+        let results: Vec<Vec<(usize, usize, J)>> = std::thread::scope(|sc| {
             let hs: Vec<_> = seeds
                 .iter()
                 .map(|sd| {
@@ -151,9 +200,10 @@ pub fn threads(seed: u64, rounds: usize, nthreads: usize, per_thread: usize, out
                             if r.chance(1, 4) {
                                 std::thread::yield_now();
                             }
-                            let inner = root_ref.new_inner_scope();
+                            let k = r.below(3);
+                            let inner = scope_of(root_ref, k);
                             let o = run::outcome(catch_unwind(AssertUnwindSafe(|| progs_ref[i].execute(&inner))));
-                            outv.push((i, o));
+                            outv.push((i, k, o));
                         }
                         outv
                     })
@@ -162,14 +212,14 @@ pub fn threads(seed: u64, rounds: usize, nthreads: usize, per_thread: usize, out
             hs.into_iter().map(|h| h.join().unwrap_or_default()).collect()
         });
         let after: Vec<J> = vars.iter().map(|(n, _)| enc::value(&root.get_variable(n.as_str()).unwrap())).collect();
-        let vars_json = run::vars_json(&vars);
+        let vars_json: Vec<J> = variants.iter().map(|sh| run::vars_json(&effective(&vars, sh))).collect();
         let vars_after: Vec<J> = vars.iter().zip(after.iter()).map(|((n, _), a)| json!([n, a])).collect();
         let _ = before;
         for (t, rs) in results.iter().enumerate() {
-            for (k, (i, o)) in rs.iter().enumerate() {
+            for (k, (i, var, o)) in rs.iter().enumerate() {
                 id += 1;
-                writeln!(out, "{}", json!({"ev": "case", "id": id, "thread": t, "seq": k, "prog": i, "src": srcs[*i], "ast": asts[*i], "vars": vars_json, "log": [], "nolog": true,
-                                            "out": o, "twin": {"src": "alone", "out": alone[*i], "log": []}, "vars_after": vars_after})).unwrap();
+                writeln!(out, "{}", json!({"ev": "case", "id": id, "thread": t, "seq": k, "prog": i, "src": srcs[*i], "ast": asts[*i], "vars": vars_json[*var], "vars_before": vars_json[0], "variant": var, "log": [], "nolog": true,
+                                            "out": o, "twin": {"src": "alone", "out": alone[*var][*i], "log": []}, "vars_after": vars_after})).unwrap();
             }
         }
     }
